@@ -25,7 +25,7 @@ polarity of the accumulator tests (value-level).
 from .core import callee_of, callee_path, strip_refs, show_expr, op_const, expr_mentions
 from .engine import Inconclusive
 from .roles import Roles
-from .opfacts import Unit, max_calls_on_a_path, path_avoiding
+from .opfacts import Unit, Site, max_calls_on_a_path, path_avoiding
 from . import prov as P
 from . import table as T
 from . import panic as PN
@@ -108,45 +108,228 @@ def once_per_use(ctx, facts, roles, p, cfg, name, e, K2="K2", K3="K3"):
                     r = c["fn"].get("resolved") or c["fn"]
                     if r.get("key") in sink_keys:
                         ctx.fail(K2 + ".no-prepass", "%s|mapped-parser" % name, "%s maps the parser over its operands (a pre-pass over all operands)" % name, where=b.where(bi), fn=b.key)
-    # ---- K3: per-element bodies
-    pe_bodies = {}
-    for s in interp:
-        k = u.per_element(s)
-        if k == "closure":
-            # the outermost closure handed to the adaptor
-            cur = s.body
-            while cur.kind == "closure" and cur.creator() and cur.creator()[0].key != root.key:
-                cur = cur.creator()[0]
-            pe_bodies[cur.key] = cur
-        elif k == "loop":
-            pe_bodies[s.body.key] = s.body
-    if not pe_bodies:
-        ctx.unread(K3 + ".skippable", "%s (%s)" % (name, cfg), "%s walks its operands neither in a loop nor through an iterator adaptor: whether operands after the deciding one are skipped is not read" % name, where=root.where(), fn=root.key)
-    is_interp = lambda t: callee_of(t) is not None and (callee_of(t).get("key") in sink_keys or callee_of(t).get("key") in roles.evaluators)
-    is_eval = lambda t: callee_of(t) is not None and callee_of(t).get("key") in roles.evaluators
-    for k, b in pe_bodies.items():
-        if b.kind == "closure":
-            # a *success* path: error propagation (`?` residuals) does not count as the 'already decided' path
-            is_blocked = lambda t: is_interp(t) or "from_residual" in (callee_path(t) or "")
-            skip = path_avoiding(b, is_blocked)
-            ctx.check(skip, K3 + ".skippable", "%s: per-element closure has a path without parse/evaluate (%s)" % (name, cfg),
-                      "every path through %s's per-element code parses or evaluates its operand: operands after the deciding one are still evaluated" % name, where=b.where(), fn=b.key, nontrivial=True)
-        else:
-            # loop form: an exit out of the loop other than the iterator's None edge (early return)
-            early = False
-            for (h, blocks, srcs) in PN.loops_of(b):
-                evs = [bi for bi in blocks if b.blocks[bi]["term"]["k"] == "Call" and is_eval(b.blocks[bi]["term"])]
-                if not evs:
-                    continue
-                for bi in blocks:
-                    for sx in b.succs(bi):
-                        if sx not in blocks and any(b.dominates(ev, bi) for ev in evs):
-                            early = True
-            ctx.check(early, K3 + ".skippable", "%s: the operand loop can be left after an evaluation (%s)" % (name, cfg),
-                      "%s's loop over the operands has no early exit after evaluating an element" % name, where=b.where(), fn=b.key, nontrivial=True)
+    # ---- K3: operands after the deciding one are skipped
+    skippable(ctx, facts, roles, u, name, cfg, K3, expanded)
     at_most_once(ctx, facts, roles, u, name, cfg, K2)
     u.iter_blocks = iter_blocks
     return u
+
+
+# iterator consumers that stop as soon as the per-element code answers with a certain result (API knowledge):
+#   method -> (results that stop the iteration, results that let it go on); an Err result is an error, not a decision
+SHORT_CIRCUIT = {
+    "find_map": ({"Some"}, {"None"}), "map_while": ({"None"}, {"Some"}), "take_while": ({False}, {True}),
+    "any": ({True}, {False}), "find": ({True}, {False}), "position": ({True}, {False}), "rposition": ({True}, {False}),
+    "all": ({False}, {True}),
+    "try_fold": ({"Break", "None"}, {"Continue", "Some", "Ok"}), "try_for_each": ({"Break", "None"}, {"Continue", "Some", "Ok"}),
+    "try_rfold": ({"Break", "None"}, {"Continue", "Some", "Ok"}),
+}
+EXHAUSTIVE = {"fold", "rfold", "for_each", "map", "filter", "filter_map", "flat_map", "inspect", "scan", "skip_while", "partition", "max_by_key", "min_by_key"}
+
+
+def skippable(ctx, facts, roles, u, name, cfg, K3, expanded):
+    """Operands after the deciding one are neither parsed nor evaluated.  Stated on the paths of the code that runs
+    once per operand (whether that is a closure handed to an iterator consumer, a loop body, or a helper called from
+    either):  (a) there is a success path through it on which nothing is parsed or evaluated — the 'already decided'
+    path of an accumulation that visits every operand —, or  (b) a truthiness verdict on the evaluated operand
+    decides whether the iteration goes on: two success paths that differ in the verdict of the shared truthiness
+    function, one of which continues the iteration while the other one ends it (a `return`/`break` out of a loop, the
+    stopping answer of a short-circuiting consumer).  An exit that only an error takes is not a decision."""
+    from . import pathsum
+    from .c06 import truthy_role, forwarders
+    root = u.root
+    sink_keys = set(roles.sinks)
+    interp_keys = sink_keys | set(roles.evaluators)
+    try:
+        tb = truthy_role(roles)
+        truthy_keys = {tb.key} | forwarders(roles, tb)
+    except Inconclusive:
+        truthy_keys = set()
+    key = "%s (%s)" % (name, cfg)
+    memo = {}
+
+    def must_interpret(t):
+        """The call `t` parses or evaluates on every one of its success paths."""
+        c = callee_of(t)
+        if c is None:
+            return False
+        if c.get("key") in interp_keys:
+            return True
+        if c.get("local") and c.get("key") in u.keys:
+            hb = facts.body(c["key"])
+            if hb is not None and hb.kind == "fn":
+                return not can_skip(hb)
+        return False
+
+    def can_skip(b):
+        if b.key in memo:
+            return memo[b.key]
+        memo[b.key] = True      # recursion: assume skippable (the recursive call adds no evaluation of its own)
+        memo[b.key] = path_avoiding(b, lambda t: must_interpret(t) or "from_residual" in (callee_path(t) or ""))
+        return memo[b.key]
+
+    def is_verdict(b, bi):
+        t = b.blocks[bi]["term"]
+        c = callee_of(t) if t["k"] == "Call" else None
+        if not c or not c.get("local"):
+            return False
+        if c["key"] in truthy_keys:
+            return True
+        it = facts.items.get(c["key"], {})
+        return it.get("output") == "bool" and bool(facts.reach([c["key"]]) & truthy_keys)
+
+    def result_kind(b, e):
+        """Outer constructor / boolean constant of a result expression; "verdict" for an expression that is computed
+        from a truthiness verdict; "error"; None = not read."""
+        e = strip_refs(e) if e is not None else None
+        if e is None:
+            return None
+        if e[0] == "agg" and e[1].get("variant"):
+            return "error" if e[1]["variant"] == "Err" else e[1]["variant"]
+        if e[0] == "const":
+            from .core import const_value
+            v = const_value(e[1])
+            return v if isinstance(v, bool) else None
+        if e[0] == "call" and e[1] and "from_residual" in e[1]["path"]:
+            return "error"
+        if expr_mentions(e, lambda y: y[0] == "call" and y[1] is not None and y[1].get("key") in truthy_keys):
+            return "verdict"
+        return None
+
+    def split(b, stops, conts):
+        """A truthiness verdict on which a stopping and a continuing path disagree."""
+        for ps in stops:
+            for pc in conts:
+                for k_, v_ in ps.atoms.items():
+                    if isinstance(v_, bool) and pc.atoms.get(k_) == (not v_) and verdict_atom(b, k_):
+                        return True
+        return False
+
+    def verdict_atom(b, k_):
+        """The branch condition is a truthiness verdict, or is computed from one (`truthy(v) == stop_on`, `!truthy(v)`)."""
+        if k_[0] == "site":
+            return is_verdict(b, k_[1])
+        return any(isinstance(x, str) and any((tk + "@") in x for tk in truthy_keys) for x in k_[1:])
+
+    # the code that runs once per operand
+    pe = {}       # key -> (kind, body, extra)
+    for s in expanded:
+        k = u.per_element(s)
+        if k == "closure":
+            cur, found = s.body, None
+            while cur.kind == "closure":
+                if _handed_to_adaptor(cur):
+                    found = cur       # the outermost closure handed to an iterator method
+                cr = cur.creator()
+                if not cr:
+                    break
+                cur = cr[0]
+            if found is not None:
+                pe[found.key] = ("closure", found, _handed_to_adaptor(found))
+        elif k == "loop":
+            for (h, blocks, srcs) in PN.loops_of(s.body):
+                if s.bi in blocks:
+                    pe[(s.body.key, h)] = ("loop", s.body, (h, blocks))
+                    break
+    if not pe:
+        ctx.unread(K3 + ".skippable", key, "%s walks its operands neither in a loop nor through an iterator adaptor: whether operands after the deciding one are skipped is not read" % name, where=root.where(), fn=root.key)
+        return
+    for pk, (kind, b, extra) in sorted(pe.items(), key=lambda kv: str(kv[0])):
+        if kind == "closure":
+            meth = (extra or "").rsplit("::", 1)[-1]
+            if can_skip(b):
+                ctx.ok(K3 + ".skippable", "%s: per-element code has a success path without parse/evaluate (%s)" % (name, cfg), nontrivial=True)
+                continue
+            if meth in SHORT_CIRCUIT:
+                w = pathsum.summarize(b, max_paths=800)
+                if w.overflow or not w.paths:
+                    ctx.unread(K3 + ".skippable", key, "the code handed to %s has too many paths to read" % meth, where=b.where(), fn=b.key)
+                    continue
+                stop_v, cont_v = SHORT_CIRCUIT[meth]
+                stops, conts, verdicts, unread_r = [], [], [], []
+                for p_ in w.paths:
+                    if p_.truncated:
+                        continue
+                    rk = result_kind(b, p_.result)
+                    if rk == "error":
+                        continue
+                    if rk == "verdict":
+                        verdicts.append(p_)
+                    elif rk in stop_v:
+                        stops.append(p_)
+                    elif rk in cont_v:
+                        conts.append(p_)
+                    else:
+                        unread_r.append(show_expr(strip_refs(p_.result))[:60] if p_.result is not None else "?")
+                if verdicts or split(b, stops, conts):
+                    ctx.ok(K3 + ".skippable", "%s: a truthiness verdict ends the iteration (%s through %s)" % (name, cfg, meth), nontrivial=True)
+                elif unread_r:
+                    ctx.unread(K3 + ".skippable", key, "results of the code handed to %s not read: %s" % (meth, unread_r[:2]), where=b.where(), fn=b.key)
+                else:
+                    ctx.fail(K3 + ".skippable", "%s: per-element closure has a path without parse/evaluate (%s)" % (name, cfg),
+                             "every path through %s's per-element code parses or evaluates its operand, and no truthiness verdict makes %s stop (stopping results on %d paths, continuing on %d): operands after the deciding one are still evaluated" % (name, meth, len(stops), len(conts)), where=b.where(), fn=b.key)
+            elif meth in EXHAUSTIVE:
+                ctx.fail(K3 + ".skippable", "%s: per-element closure has a path without parse/evaluate (%s)" % (name, cfg),
+                         "every path through %s's per-element code parses or evaluates its operand (%s visits every operand): operands after the deciding one are still evaluated" % (name, meth), where=b.where(), fn=b.key)
+            else:
+                ctx.unread(K3 + ".skippable", key, "per-element code handed to %s: not known whether it stops early" % (extra or "?"), where=b.where(), fn=b.key)
+        else:
+            h, blocks = extra
+            is_eval = lambda t: callee_of(t) is not None and callee_of(t).get("key") in roles.evaluators
+            # (a) an iteration that touches nothing: header → back edge without a blocked call
+            back_srcs = {x for x in blocks if h in b.succs(x)}
+            seen, st, free_iter = set(), [h], False
+            while st:
+                x = st.pop()
+                if x in seen or x not in blocks:
+                    continue
+                seen.add(x)
+                t = b.blocks[x]["term"]
+                if t["k"] == "Call" and (must_interpret(t) or "from_residual" in (callee_path(t) or "")):
+                    continue
+                if x in back_srcs:
+                    free_iter = True
+                    break
+                st.extend(y for y in b.succs(x) if y != h)
+            # does the loop body interpret at all between header and back edge? (a loop whose iterations all are free is no evidence)
+            if free_iter:
+                ctx.ok(K3 + ".skippable", "%s: an iteration of the operand loop can pass without parse/evaluate (%s)" % (name, cfg), nontrivial=True)
+                continue
+            # (b) a truthiness verdict decides between the back edge and leaving the loop
+            w = pathsum.summarize(b, start=h, max_paths=1500)
+            if w.overflow or not w.paths:
+                ctx.unread(K3 + ".skippable", key, "the operand loop of %s has too many paths to read" % name, where=b.where(h), fn=b.key)
+                continue
+            stops, conts = [], []
+            for p_ in w.paths:
+                if p_.truncated:
+                    if p_.blocks and p_.blocks[-1] == h:
+                        conts.append(p_)
+                    continue
+                if any(k_[0] == "variant" and v_ == "None" and "::next" in k_[1] for k_, v_ in p_.atoms.items()) and not any(bx in blocks and bx != h and b.blocks[bx]["term"]["k"] == "Call" and is_eval(b.blocks[bx]["term"]) for bx in p_.blocks):
+                    continue      # the iterator is exhausted
+                if result_kind(b, p_.result) == "error":
+                    continue
+                stops.append(p_)
+            if split(b, stops, conts):
+                ctx.ok(K3 + ".skippable", "%s: a truthiness verdict ends the operand loop (%s)" % (name, cfg), nontrivial=True)
+            else:
+                ctx.fail(K3 + ".skippable", "%s: the operand loop can be left after an evaluation (%s)" % (name, cfg),
+                         "%s's loop over the operands is never left on a truthiness verdict (leaving paths %d, continuing %d, none of them split by the shared truthiness function) and no iteration passes without parse/evaluate: operands after the deciding one are still evaluated" % (name, len(stops), len(conts)), where=b.where(h), fn=b.key)
+
+
+def _handed_to_adaptor(cb):
+    """Path of the iterator method the closure `cb` is handed to in its creator, or None."""
+    from .opfacts import ITER_ADAPTOR
+    cr = cb.creator()
+    if cr is None:
+        return None
+    parent = cr[0]
+    for bi, t in parent.calls():
+        p = callee_path(t) or ""
+        if ("Iterator" in p or "iter::" in p) and any(strip_refs(parent.trace(a))[0] == "agg" and strip_refs(parent.trace(a))[1].get("closure") == cb.key for a in t["args"]):
+            return p
+    return None
 
 
 def OD_unknown(v):
@@ -331,16 +514,17 @@ def run(ctx):
                         ctx.fail("K4.value-itself", "%s|const %s" % (name, item.split("::", 1)[1]), "%s returns the constant %s instead of an operand's value" % (name, item), where=b.where(bi, si), fn=b.key)
                 if not aggs:
                     ctx.ok("K4.value-itself", "%s constructs no JSON value (%s)" % (name, cfg), nontrivial=True)
-                # every successful result is (a plumbing of) an evaluation result: it mentions an evaluate call or the
-                # iteration that contains the per-element evaluation — never an operand taken as it stands in the rule
-                r0 = strip_refs(root.trace(0))
-                cands0 = [strip_refs(x) for x in r0[2]] if r0[0] == "phi" else [r0]
-                for c0 in cands0:
-                    if (c0[0] == "agg" and c0[1].get("variant") == "Err") or (c0[0] == "call" and c0[1] and "from_residual" in c0[1]["path"]):
-                        continue
-                    from_eval = expr_mentions(c0, lambda y: y[0] == "call" and y[1] and (y[1].get("key") in roles.evaluators or y[3] in u.iter_blocks))
-                    ctx.check(from_eval, "K4.result-is-evaluated", "%s: a successful result comes out of an evaluation (%s)" % (name, cfg),
-                              "%s can return %s — an operand as written in the rule (or something else that was never evaluated)" % (name, show_expr(c0)[:120]), where=root.where(), fn=root.key, nontrivial=True)
+                # every successful result is (a plumbing of) an evaluation result — never an operand as it stands in the rule,
+                # never the data: stated on the provenance of the returned value (R-PROV: every value that can flow into the
+                # result, through closures, captured variables, helper functions and Option/Result plumbing; the Err side
+                # carries an opaque error), not on the expression that spells the return
+                rt0 = set(p.tags.get((root.key, 0), set()))
+                foreign = sorted(rt0 - {"EVAL"})
+                if foreign and p.error_unpacked:
+                    ctx.unread("K4.result-is-evaluated", "%s (%s)" % (name, cfg), "errors are taken apart at %s: the provenance of a successful result cannot be told from that of an error" % p.error_unpacked[:2], where=root.where(), fn=root.key)
+                else:
+                    ctx.check(not foreign, "K4.result-is-evaluated", "%s: a successful result comes out of an evaluation (%s)" % (name, cfg),
+                              "%s can return a value with provenance %s — an operand as written in the rule (or something else that was never evaluated)" % (name, foreign), where=root.where(), fn=root.key, nontrivial=True)
                 rt = p.tags.get((root.key, 0), set())
                 ctx.check("EVAL" in rt, "K4.returns-evaluated", "%s returns an evaluation result (%s)" % (name, cfg), "%s's result has provenance %s" % (name, sorted(rt)), where=root.where(), fn=root.key, nontrivial=True)
             else:
